@@ -316,6 +316,14 @@ def _event_send_language(ck, rule):
           "source item, filters in order, then one delivery and True, or False without delivery"
           if ok else f"a path has the step word {' '.join(wit[1])}", es, es.node,
           witness=path_witness(cfg, wit[0]) if wit else None)
+    if fcalls and isinstance(fcalls[0].ast, ast.Assign):
+        rv = norm(fcalls[0].ast.targets[0])
+        okv = bool(rf) and all(cfg.has_guard(r, f'isinstance({rv}, MutableMapping)', False) and
+                               cfg.has_guard(r, rv, False) for r in rf)
+        ck.ob(rule, f"{es.fid} :: veto only for a non-mapping false result", okv,
+              "an (even empty) mapping result is data for the destination, never a veto" if okv else
+              "a filter result is tested for truthiness before it is recognised as a mapping: an "
+              "empty mapping suppresses the delivery", es, rf[0].ast if rf else es.node)
     okd = False
     if deliveries:
         dc = node_calls(deliveries[0], 'event')[0]
